@@ -250,4 +250,26 @@ func emitDtlcpTx(e *emitter, p *pkg) {
 		})
 	}
 	e.boolean("rxDatagramReadsIntoBuf", readInto)
+
+	// ReadFrom: the tests around decrypt and what is handed to the caller
+	isContinue := func(is *ast.IfStmt) bool {
+		if is == nil || len(is.Body.List) == 0 {
+			return false
+		}
+		bs, ok := is.Body.List[len(is.Body.List)-1].(*ast.BranchStmt)
+		return ok && bs.Tok.String() == "continue"
+	}
+	e.boolean("rxfShortDropped", isContinue(findIf(p, "Conn.ReadFrom", "len(c.rawInputBuf) < recordHeaderLen")))
+	e.boolean("rxfTruncatedDropped", isContinue(findIf(p, "Conn.ReadFrom", "recordHeaderLen+recLen > len(c.rawInputBuf)")))
+	rl, okrl := assignRHS(p, "Conn.ReadFrom", "recLen")
+	strFact("rxfRecLen", rl, okrl)
+	ep, okep := assignRHS(p, "Conn.ReadFrom", "epoch")
+	strFact("rxfEpoch", ep, okep)
+	rec, okrec := assignRHS(p, "Conn.ReadFrom", "record")
+	strFact("rxfRecord", rec, okrec)
+	nn, oknn := assignRHS(p, "Conn.ReadFrom", "n")
+	strFact("rxfHandsOver", nn, oknn)
+	e.boolean("rxfNonAppDataNotReturned", isContinue(findIf(p, "Conn.ReadFrom", "actualTyp != recordTypeApplicationData")))
+	// Read path: an empty application record is skipped
+	e.boolean("rxReadSkipsEmptyAppData", isContinue(findIf(p, "Conn.readRecordOrCCS", "len(data) == 0")))
 }
